@@ -11,13 +11,11 @@ import (
 	"crypto/md5"  //nolint:gosec
 	"crypto/sha1" //nolint:gosec
 	"crypto/sha256"
-	"crypto/tls"
 	"encoding/hex"
 	"encoding/json"
 	"fmt"
 	"hash/crc32"
 	"os"
-	"reflect"
 	"strconv"
 	"strings"
 	"sync"
@@ -198,22 +196,6 @@ func vxSpawn(f func()) {
 
 // vxNativeRun is true in native replays, false in the symbolic run.
 func vxNativeRun() bool { return true }
-
-// vxTLSServerName: the ServerName of the TLS client configuration wrapped around the client's connection ("" if none).
-func vxTLSServerName(c *Client) string {
-	if c == nil {
-		return ""
-	}
-	tc, ok := c.c.(*tls.Conn)
-	if !ok {
-		return ""
-	}
-	cfg := reflect.ValueOf(tc).Elem().FieldByName("config")
-	if !cfg.IsValid() || cfg.IsNil() {
-		return ""
-	}
-	return cfg.Elem().FieldByName("ServerName").String()
-}
 
 // vxDTLSServerName is only observable in the symbolic run.
 func vxDTLSServerName() string { return "" }
